@@ -131,6 +131,19 @@ pub fn plans(ctx: &WorkerCtx) -> Vec<Plan> {
     // general machines (G2 with padding actions) under framework fractions
     let g2: Vec<_> = fam::g2(if q { 1999 } else { 199 }, 5).into_iter().filter(|(_, m)| format!("{:?}", m).contains("SendPadding")).collect();
     v.push(Plan { name: "G2 machines with padding actions, pairs".into(), cfgs: fam::pairs_strided(&g2, 31, 7, &[(0.5, 0.0), (0.25, 0.0), (1.0, 0.0)]), alpha_for: Box::new(|c: &Cfg| Alphabet { batches: all_single_events(c.machines.len(), false).into_iter().map(|e| vec![e]).collect(), deltas: vec![0] }), opts: Opts { depth: if q { 3 } else { 4 }, ..base.clone() }, walk: None });
+    // fractions at the very bottom of the valid range are set limits like any other
+    let mut tiny = vec![];
+    for kind in 0..3 {
+        for allowed in [0u64, 1] {
+            for (fname, frac) in [("5e-324", 5e-324), ("min_positive", f64::MIN_POSITIVE), ("1e-300", 1e-300), ("epsilon", f64::EPSILON)] {
+                tiny.push((format!("padder[k{kind},allowed{allowed},frac{fname}]"), fam::padder(kind, allowed, frac)));
+            }
+        }
+    }
+    let mut tcfgs = fam::singles(&tiny, &[(0.0, 0.0), (1.0, 0.0)]);
+    tcfgs.extend(fam::singles(&pads.iter().filter(|(n, _)| n.contains("frac0,") || n.contains("frac0]") || n.contains("frac1")).cloned().collect::<Vec<_>>(), &[(5e-324, 0.0), (f64::EPSILON, 0.0)]));
+    tcfgs.extend(fam::all_pairs(&tiny, &reporter, &[(0.0, 0.0)]));
+    v.push(Plan { name: "own and framework fractions at the bottom of the valid range (5e-324 .. f64::EPSILON)".into(), cfgs: tcfgs, alpha_for: af(), opts: Opts { depth: if q { 5 } else { 7 }, ..base.clone() }, walk: None });
     v
 }
 
